@@ -339,7 +339,10 @@ pub fn run_units(
             UnitOutcome::TimedOut => {
                 let mut part = Stats::default();
                 if !bisect(u, tier, bisect_timeout, &mut part, &mut dead, "timed out (watchdog)".into()) {
-                    unreproduced.push(format!("{u:?}: timed out"));
+                    // every part of the unit completed when run on its own: the unit was only
+                    // slower than the adaptive watchdog (50 x the median unit), not hung. Its cases
+                    // have all been explored by the split runs, whose statistics are merged here.
+                    part.count("units slower than the adaptive watchdog, explored in parts", 1);
                 }
                 stats = stats.merge(part);
             }
